@@ -6,10 +6,11 @@ import GoDcp.Driver.Keys
 import GoDcp.Driver.AsyncOp
 import GoDcp.Driver.Config
 import GoDcp.Driver.Life
+import GoDcp.Driver.Membership
 /-! registry of all stateless handlers (one list per slice) -/
 namespace GoDcp.Driver
 
 def allHandlers : List (String × (List String → Option String → Option Out)) :=
-  pureHandlers ++ versionHandlers ++ rollbackHandlers ++ healthHandlers ++ keysHandlers ++ asyncOpHandlers ++ configHandlers ++ lifeHandlers
+  pureHandlers ++ versionHandlers ++ rollbackHandlers ++ healthHandlers ++ keysHandlers ++ asyncOpHandlers ++ configHandlers ++ lifeHandlers ++ membershipHandlers
 
 end GoDcp.Driver
